@@ -237,6 +237,14 @@ def gen_sharedmem(repo):
                         'self._state = (block, size)',
                         'util.Finalize(self, BufferWrapper._heap.free, args=(block,))'],
             'heap.BufferWrapper.__init__ changed: %r' % bw_init)
+    # the finaliser exists only in __init__: a wrapper made by unpickling (default object pickling, __init__ not run) has
+    # none and the owner's heap does not know it (Model/SharedHopDrop.v rests on this)
+    bw = [c for c in htree.body if isinstance(c, ast.ClassDef) and c.name == 'BufferWrapper']
+    require(len(bw) == 1, 'heap.BufferWrapper not found')
+    bw_methods = sorted(f.name for f in bw[0].body if isinstance(f, ast.FunctionDef))
+    require(bw_methods == ['__init__', 'create_memoryview', 'get_address', 'get_size'],
+            'heap.BufferWrapper now defines %s: how a wrapper is pickled / rebuilt / finalised is no longer what is modelled' % bw_methods)
+    require(ast.unparse(bw[0]).count('Finalize') == 1, 'heap.BufferWrapper registers finalisers elsewhere than in __init__')
     bw_view = [ast.unparse(s) for s in pykernel.find_func(htree, 'BufferWrapper.create_memoryview').body]
     require(bw_view == ['(arena, start, stop), size = self._state',
                         'return memoryview(arena.buffer)[start:start + size]'],
